@@ -3,12 +3,14 @@
 package main
 
 import (
+	"bytes"
 	"context"
 	stdsql "database/sql"
 	"fmt"
 	"os"
 	"path/filepath"
 	"strings"
+	"sync/atomic"
 	"time"
 
 	"github.com/oklog/ulid/v2"
@@ -18,6 +20,7 @@ import (
 	repositoryfactory "github.com/jdillenkofer/pithos/internal/storage/database/repository"
 	"github.com/jdillenkofer/pithos/internal/storage/database/repository/object"
 	"github.com/jdillenkofer/pithos/internal/storage/database/sqlite"
+	"github.com/jdillenkofer/pithos/internal/storage/metadatapart"
 	"github.com/jdillenkofer/pithos/internal/storage/metadatapart/metadatastore"
 	sqlmeta "github.com/jdillenkofer/pithos/internal/storage/metadatapart/metadatastore/sql"
 	"github.com/jdillenkofer/pithos/internal/storage/metadatapart/partstore"
@@ -315,6 +318,217 @@ func (e *c07ILEnv) run(out *verifx.Out, caseNo int, seed uint64, c c07ILCombo, k
 	out.Line("cres 100000 %s", fin)
 	for _, body := range [][]byte{initBody, bodyA, bodyB} {
 		out.Line("md5 %s %s", verifx.Hex(body), strings.Trim(strings.Trim(c07ETag(body), "\""), "\""))
+	}
+	out.End()
+}
+
+// ---------------------------------------------------------------- storage-level interleavings
+//
+// The same forcing at the storage.Storage API, for the calls whose reads are spread over the
+// storage layer and the metadata store: AppendObject (HeadObject snapshot in the storage layer, then
+// the metadata store's own re-read, part-row read, prefix check and guarded update) and
+// CompleteMultipartUpload. Writer A runs inside metadataPartStorage.WithTransaction (a caller-
+// provided transaction, committed whatever A answered); writer B runs in that transaction right
+// after A's k-th objects-table statement.
+
+type c07ILSCombo struct {
+	present bool
+	a       string // app | appoff | cmpl-inm | cmpl-im
+	b       string // app | put | put-inm | del
+}
+
+func c07ILSCombos() []c07ILSCombo {
+	var out []c07ILSCombo
+	for _, present := range []bool{true, false} {
+		for _, a := range []string{"app", "appoff", "cmpl-inm", "cmpl-im"} {
+			for _, b := range []string{"app", "put", "put-inm", "del"} {
+				out = append(out, c07ILSCombo{present, a, b})
+			}
+		}
+	}
+	return out
+}
+
+type c07ILSEnv struct {
+	db   database.Database
+	repo *c07YieldRepo
+	st   storage.Storage
+	dir  string
+}
+
+func newC07ILSEnv(scratch string) *c07ILSEnv {
+	dir := filepath.Join(scratch, "c07-yield-storage")
+	_ = os.RemoveAll(dir)
+	db := verifx.Must(sqlite.OpenDatabase(filepath.Join(dir, "pithos.db")))
+	br := verifx.Must(repositoryfactory.NewBucketRepository(db))
+	or := verifx.Must(repositoryfactory.NewObjectRepository(db))
+	pr := verifx.Must(repositoryfactory.NewPartRepository(db))
+	tr := verifx.Must(repositoryfactory.NewTagRepository(db))
+	ur := verifx.Must(repositoryfactory.NewUserMetadataRepository(db))
+	repo := &c07YieldRepo{Repository: or}
+	ms := verifx.Must(sqlmeta.New(db, br, repo, pr, tr, ur))
+	ps := verifx.NewBasePartStore(db, "sql", filepath.Join(dir, "parts"))
+	st := verifx.Must(metadatapart.NewStorage(db, ms, ps))
+	return &c07ILSEnv{db: db, repo: repo, st: st, dir: dir}
+}
+
+func (e *c07ILSEnv) Close() {
+	_ = e.db.Close()
+	_ = os.RemoveAll(e.dir)
+}
+
+func (e *c07ILSEnv) run(out *verifx.Out, caseNo int, seed uint64, c c07ILSCombo, k int) {
+	ctx := context.Background()
+	b := fmt.Sprintf("z%d", caseNo)
+	bucket := storage.MustNewBucketName("bkt-" + b)
+	key := storage.MustNewObjectKey("obj")
+	st := e.st
+	initBody := []byte(fmt.Sprintf("<init-%d>", caseNo))
+	bodyA := []byte(fmt.Sprintf("<A-%d>", caseNo))
+	bodyB := []byte(fmt.Sprintf("<B-%d>", caseNo))
+	partA := []byte(fmt.Sprintf("<upload-%d>", caseNo))
+	verifx.Check(st.CreateBucket(ctx, bucket))
+	e0 := c07ETag(initBody)
+	if c.present {
+		verifx.Must(st.PutObject(ctx, bucket, key, nil, bytes.NewReader(initBody), nil, nil))
+	}
+	var upload storage.UploadId
+	if strings.HasPrefix(c.a, "cmpl") {
+		up := verifx.Must(st.CreateMultipartUpload(ctx, bucket, key, nil, nil, nil))
+		upload = up.UploadId
+		verifx.Must(st.UploadPart(ctx, bucket, key, upload, 1, bytes.NewReader(partA), nil))
+	}
+	fail := func(err error) string {
+		kind := errKind(err)
+		if kind == "Other" {
+			return "err Other " + verifx.HexS(err.Error())
+		}
+		return "err " + kind
+	}
+	// one storage call; returns (cop arguments, cres text)
+	call := func(cctx context.Context, s storage.Storage, op string, body []byte) (args string, res string) {
+		defer func() {
+			if r := recover(); r != nil {
+				res = "panic " + verifx.HexS(fmt.Sprint(r))
+			}
+		}()
+		switch op {
+		case "app", "appoff":
+			var opts *storage.AppendObjectOptions
+			off := "~"
+			if op == "appoff" {
+				n := int64(0)
+				if c.present {
+					n = int64(len(initBody))
+				}
+				opts = &storage.AppendObjectOptions{WriteOffset: &n}
+				off = fmt.Sprint(n)
+			}
+			args = fmt.Sprintf("app %s obj %s off=%s", b, verifx.Hex(body), off)
+			r, err := s.AppendObject(cctx, bucket, key, bytes.NewReader(body), nil, opts)
+			if err != nil {
+				return args, fail(err)
+			}
+			return args, fmt.Sprintf("ok etag=%s size=%d", r.ETag, r.Size)
+		case "put", "put-inm":
+			args = fmt.Sprintf("put %s obj %s inm=%d im=~", b, verifx.Hex(body), b2i(op == "put-inm"))
+			r, err := s.PutObject(cctx, bucket, key, nil, bytes.NewReader(body), nil, &storage.PutObjectOptions{IfNoneMatchStar: op == "put-inm"})
+			if err != nil {
+				return args, fail(err)
+			}
+			return args, "ok etag=" + *r.ETag
+		case "del":
+			args = fmt.Sprintf("del %s obj im=~", b)
+			r, err := s.DeleteObject(cctx, bucket, key, nil)
+			if err != nil {
+				return args, fail(err)
+			}
+			return args, fmt.Sprintf("ok dm=%d", b2i(r.IsDeleteMarker))
+		case "cmpl-inm", "cmpl-im":
+			im := "~"
+			opts := &storage.CompleteMultipartUploadOptions{IfNoneMatchStar: op == "cmpl-inm"}
+			if op == "cmpl-im" {
+				im = e0
+				opts.IfMatchETag = &e0
+			}
+			args = fmt.Sprintf("cmpl %s obj 0 inm=%d im=%s", b, b2i(op == "cmpl-inm"), im)
+			r, err := s.CompleteMultipartUpload(cctx, bucket, key, upload, nil, opts)
+			if err != nil {
+				return args, fail(err)
+			}
+			return args, "ok etag=" + r.ETag
+		}
+		return "?", "err UnknownOp"
+	}
+	ts, ok := st.(storage.TransactionalStorage)
+	if !ok {
+		verifx.Fatalf("c07: storage is not transactional")
+	}
+	var argsA, resA, argsB, resB string
+	ranB := false
+	r := e.repo
+	txErr := ts.WithTransaction(ctx, &stdsql.TxOptions{ReadOnly: false}, func(txCtx context.Context, txSt storage.Storage) error {
+		runB := func() {
+			ranB = true
+			argsB, resB = call(txCtx, txSt, c.b, bodyB)
+		}
+		r.count, r.calls, r.writes, r.yieldAt, r.writer = 0, nil, 0, k, runB
+		if k == 0 {
+			r.writer = nil
+			runB()
+		}
+		r.active = true
+		argsA, resA = call(txCtx, txSt, c.a, bodyA)
+		r.active = false
+		r.writer = nil
+		return nil
+	})
+	legal := ranB && (r.writes == 0 || k < r.writes)
+	if !legal {
+		return
+	}
+	fin := &c07Op{id: 100000, g: 99, name: "get", im: "~", off: "~"}
+	var seq atomic.Uint64
+	var le string
+	var ls int64
+	c07Exec(ctx, st, bucket, key, nil, fin, &seq, &le, &ls)
+	out.Case(caseNo, seed)
+	initTok := "~"
+	if c.present {
+		initTok = verifx.Hex(initBody)
+	}
+	out.Line("cfg stack=storage-yield ver=off kind=interleave g=2 init=%s a=%s b=%s boundary=%d calls=%s", initTok, c.a, c.b, k, strings.Join(r.calls, ","))
+	out.Line("op mkb %s", b)
+	out.Line("res ok")
+	if c.present {
+		out.Line("op put %s obj %s ct=~ md=~ tags=~ cls=~ inm=0 im=~", b, verifx.Hex(initBody))
+		out.Line("res ok vid=null etag=%s", e0)
+	}
+	if strings.HasPrefix(c.a, "cmpl") {
+		out.Line("op mpu %s obj ct=~ md=~ tags=~ cls=~", b)
+		out.Line("res ok u=0")
+		out.Line("op upp %s obj 0 1 %s", b, verifx.Hex(partA))
+		out.Line("res ok etag=%s", c07ETag(partA))
+	}
+	out.Line("conc")
+	if txErr != nil {
+		out.Line("cop 0 g=0 inv=1 resp=4 %s", argsA)
+		out.Line("cres 0 err CommitFailed %s", verifx.HexS(txErr.Error()))
+	} else if k == 0 {
+		out.Line("cop 1 g=1 inv=1 resp=2 %s", argsB)
+		out.Line("cres 1 %s", resB)
+		out.Line("cop 0 g=0 inv=3 resp=4 %s", argsA)
+		out.Line("cres 0 %s", resA)
+	} else {
+		out.Line("cop 0 g=0 inv=1 resp=4 %s", argsA)
+		out.Line("cres 0 %s", resA)
+		out.Line("cop 1 g=1 inv=2 resp=3 %s", argsB)
+		out.Line("cres 1 %s", resB)
+	}
+	out.Line("cop 100000 g=99 inv=5 resp=6 get %s obj", b)
+	out.Line("cres 100000 %s", fin.res)
+	for _, body := range [][]byte{initBody, bodyA, bodyB, partA} {
+		out.Line("md5 %s %s", verifx.Hex(body), strings.Trim(c07ETag(body), "\""))
 	}
 	out.End()
 }
